@@ -23,6 +23,7 @@ import (
 	"go/token"
 	"go/types"
 	"sort"
+	"strings"
 
 	"golang.org/x/tools/go/ssa"
 )
@@ -304,6 +305,89 @@ func (w *World) syntacticFrame(fn *ssa.Function, topName string) []*Obligation {
 				}
 			}
 		}
+	}
+	return out
+}
+
+// formatDelegation (C09): the Format method of every library error type hands the receiver, the
+// fmt.State and the verb unchanged to errbase.FormatError (so that all verbs of all library types
+// go through the one engine whose dispatch is under contract). Structural obligations
+// <method>#delegates.
+func (w *World) formatDelegation() []*FuncResult {
+	var out []*FuncResult
+	var fns []*ssa.Function
+	for fn := range w.AllFuncs {
+		if fn.Name() != "Format" || fn.Signature.Recv() == nil || fn.Pkg == nil || !w.InModule(fn.Pkg.Pkg) || len(fn.Blocks) == 0 || fn.Synthetic != "" {
+			continue
+		}
+		p := fn.Pkg.Pkg.Path()
+		if strings.Contains(p, "testutils") || strings.Contains(p, "fmttests") {
+			continue
+		}
+		if pos := w.Fset.Position(fn.Pos()); strings.HasSuffix(pos.Filename, "_test.go") {
+			continue
+		}
+		sig := fn.Signature
+		if sig.Params().Len() != 2 || sig.Params().At(0).Type().String() != "fmt.State" {
+			continue
+		}
+		rt := sig.Recv().Type()
+		if pt, ok := rt.Underlying().(*types.Pointer); ok {
+			rt = pt.Elem()
+		}
+		if !w.isErrorStruct(rt) {
+			continue
+		}
+		fns = append(fns, fn)
+	}
+	sort.Slice(fns, func(i, j int) bool { return fns[i].String() < fns[j].String() })
+	for _, fn := range fns {
+		name := w.funcName(fn)
+		ok, why := true, ""
+		calls := 0
+		for _, b := range fn.Blocks {
+			for _, ins := range b.Instrs {
+				switch x := ins.(type) {
+				case *ssa.Store, *ssa.MapUpdate, *ssa.If, *ssa.Go, *ssa.Defer:
+					ok, why = false, fmt.Sprintf("unexpected %T in a delegating Format method", ins)
+				case *ssa.Call:
+					if _, isB := x.Call.Value.(*ssa.Builtin); isB {
+						continue
+					}
+					calls++
+					callee := x.Call.StaticCallee()
+					if callee == nil || callee.Name() != "FormatError" || callee.Pkg == nil || !strings.HasSuffix(callee.Pkg.Pkg.Path(), "/errbase") {
+						ok, why = false, "calls something other than errbase.FormatError"
+						continue
+					}
+					a := x.Call.Args
+					recvOK := false
+					if len(a) == 3 {
+						v := a[0]
+						if mi, isMI := v.(*ssa.MakeInterface); isMI {
+							v = mi.X
+						}
+						recvOK = v == ssa.Value(fn.Params[0])
+					}
+					if !recvOK || a[1] != ssa.Value(fn.Params[1]) || a[2] != ssa.Value(fn.Params[2]) {
+						ok, why = false, "FormatError is not called with (receiver, state, verb)"
+					}
+				}
+			}
+		}
+		if ok && calls != 1 {
+			ok, why = false, fmt.Sprintf("%d calls instead of exactly one call of errbase.FormatError", calls)
+		}
+		o := &Obligation{Name: name + "#delegates", Func: name, Kind: "post", Props: []string{"C09"},
+			Text: "Format hands (receiver, state, verb) unchanged to errbase.FormatError (structural)", Pos: w.Fset.Position(fn.Pos()).String()}
+		q := &Query{Goal: tTrue, Status: "trivial"}
+		if !ok {
+			q.Status = "unknown"
+			q.Output = why
+			o.Text += " -- " + why
+		}
+		o.Queries = []*Query{q}
+		out = append(out, &FuncResult{Name: name, Fn: fn, Obls: []*Obligation{o}})
 	}
 	return out
 }
